@@ -15,6 +15,7 @@ func init() {
 			"without an Old value are creations; deletions are built only in a function all of whose call sites are on an IsDelete()/prune edge; (lease-and-ff-rules) checkForceWithLease rejects when cmd.Old differs from " +
 			"the expected value, checkFastForwardUpdate returns nil only for a genuinely absent remote ref or isFastForward == true, checkTagUpdate rejects existing tags; (haves-from-remote) the exclusion set handed to " +
 			"revlist.Objects in sendPack is built only from the remote's advertised references and the local shallow list — never from local references; (force-rewrites-refspecs) PushOptions.Force only adds '+' to refspecs. " +
+			"(refspec-direction) in functions reachable from PushContext and not from fetch, a callback over the remote's references applies a RefSpec (Match, Dst) to the reference's name only through a value obtained from Reverse(). " +
 			"Not decided: that the remote ends with the pushed objects; isFastForward's graph walk (C42).",
 		Assumptions: []string{"the remote advertisement is truthful", "revlist.Objects is correct (C37)"},
 		Run:         runC38,
